@@ -294,6 +294,27 @@ func lemma_block_no_leak(i *ignore, meta *ast.Meta) {
 //@   loop 1 invariant l.includeDepth == old(l.includeDepth) && !hasInclude && (forall k int :: 0 <= k && k <= rangeindex ==> !is(block.Statements[k], *ast.IncludeStatement))
 //@   loop 2 invariant l.includeDepth == old(l.includeDepth) + b2i(hasInclude)
 
+// ---- C18 (lock discipline only): diagnostics are recorded under the linter's mutex --------------------------
+// Error is the single place that reads the ignore sets and appends to l.Errors, and it is also called
+// from the goroutines that run lint plugins concurrently. g_held (ghost) is the state of a mutex as
+// this goroutine sees it: set by Lock, cleared by Unlock (assumed contracts of sync.Mutex).
+//@ ghost field sync.Mutex.g_held bool
+//@ extern (*sync.Mutex).Lock [C18]
+//@   requires !m.g_held
+//@   ghost-effect m.g_held = true
+//@   assigns nothing
+//@ extern (*sync.Mutex).Unlock [C18]
+//@   requires m.g_held
+//@   ghost-effect m.g_held = false
+//@   assigns nothing
+
+//@ func (*Linter).Error [C18]
+//@   requires l != nil && l.ignore != nil && !l.mu.g_held
+//@   callassert [filter-read-under-the-lock C18] IsEnable: l.mu.g_held
+//@   ensures [lock-released C18] !l.mu.g_held
+//@   only-writers [C18] F:linter.Linter.Errors : Error
+//@   only-writers [C18] E:*linter.LintError : Error
+
 // the sweep: no reachable panic in any function of the package, for any (well-formed) syntax tree
 //@ forall-funcs .* [C11]
 //@   except ^lemma_|^verif
